@@ -21,7 +21,7 @@ from ..seams.simfs import SimFS, SimFile, patched_open
 VARIANTS = ["c20:sweep", "c20:edits"]
 
 KEYWORDS = ["BEGIN", "END", "MATRIX", "TREE", ";", "TAXA", "TREES", "CHARACTERS", "DATA", "DIMENSIONS", "FORMAT",
-            "TAXLABELS", "TRANSLATE", "TITLE", "LINK", "NTAX", "NCHAR", "=", "SETS", "CHARSET", "INTERLEAVE"]
+            "TAXLABELS", "TRANSLATE", "TITLE", "LINK", "NTAX", "NCHAR", "=", "SETS", "CHARSET", "INTERLEAVE", "ALL"]
 ALPHABET = {
     "newick": list("(),:;[]'\" \n_&") + ["a", "B", "1", "0.5", "e-3", "[&R]", "[&U]", "''"],
     "nexus": list("(),:;[]'\"= \n{}-?_&#*\\/.") + ["a", "B", "1", "0", "0.5", "A", "C", "G", "T"] + KEYWORDS,
@@ -37,7 +37,7 @@ NEXUS_STATEMENTS = [
     "MATRIX a ACGT b ACGT c ACGT;", "MATRIX a AC b AC c AC;", "MATRIX a 0101 b 1{01}0(01) c ....;", "MATRIX\na AC\nb AC\n\na GT\nb GT\n;",
     "MATRIX a 0.5 1.5 b 2 3;", "MATRIX", "MATRIX;", "BEGIN TREES;", "TRANSLATE 1 a, 2 b, 3 c;", "TRANSLATE 1 a, 2 b;", "TRANSLATE;",
     "TREE t = (1,2,3);", "TREE t = ((a,b),c);", "TREE * t = [&R] ((a:1,b:2):3,c:4);", "TREE t = (a,b,d);", "TREE = (a,b);", "TREE t (a,b);",
-    "BEGIN SETS;", "CHARSET x = 1-3;", "CHARSET y = 1 2 .;", "CHARSET z = 1-.\\2;", "CHARSET s0 = 1-4\\0;", "CHARSET s1 = 2-1;", "CHARSET s2 = 1-3/0;", "CHARSET w = all;", "CHARSET v = 9;", "CHARSET;",
+    "BEGIN SETS;", "CHARSET x = 1-3;", "CHARSET y = 1 2 .;", "CHARSET z = 1-.\\2;", "CHARSET s0 = 1-4\\0;", "CHARSET s1 = 2-1;", "CHARSET s2 = 1-3/0;", "CHARSET w = all;", "CHARSET a1 = all 3;", "CHARSET a2 = ALL 2-3;", "CHARSET a3 = 1 all;", "CHARSET v = 9;", "CHARSET;",
     "LINK TAXA = t;", "LINK CHARACTERS = c;", "LINK FOO = bar;", "TITLE t;", "TITLE c;", "TITLE;", "BEGIN FOO;", "bar baz;", "BEGIN;",
     "[a comment]", "[unterminated comment", "'unterminated quote",
 ]
